@@ -52,7 +52,7 @@ def _worker_run(index):
 
 def run_property(prop, tier, seed, nproc=None, count=None, wall_cap=None):
     """Run `count` cases of `prop`; returns (aggregated dict, violations list)."""
-    nproc = nproc or min(16, os.cpu_count() or 4)
+    nproc = nproc or getattr(prop, "nproc", None) or min(16, os.cpu_count() or 4)
     count = count or prop.counts[tier]
     wall_cap = wall_cap or prop.wall_caps.get(tier)
     t0 = time.time()
